@@ -680,6 +680,120 @@ def gen_args_case(rng: random.Random) -> Dict[str, Any]:
     return {"spec": spec, "options": options, "features": feats, "links_set": links_set, "filters": filters, "calls": calls}
 
 
+# ---- family B-dom: the argument objects WITH DOMAINS ------------------------------------------------------------------
+DOM_FEATS = [("v", "sales"), ("v", "sales"), ("v", "finance"), ("v", "finance"), ("p", "sales"), ("p", None), ("q", "finance"),
+             ("q", None), ("k", "sales"), ("k", "finance"), ("k", "default_domain"), ("w", None), ("w", "default_domain"),
+             ("x", None), ("y", None), ("x", "geo"), ("t1", "sales"), ("t2", None), ("t3", None)]
+DOM_FEATS_ODD = [("v", None), ("t1", None), ("p", "finance"), ("k", None), ("w", "sales")]     # ambiguous / no group
+DOM_OF_NAME = {"p": "sales", "q": "finance", "w": "default_domain", "x": "geo", "y": "geo", "t1": "sales", "t2": "geo", "t3": "finance"}
+
+
+def gen_dom_case(rng: random.Random) -> Dict[str, Any]:
+    """Universe with DOMAINS: two roots providing the same columns in the domains sales / finance, a pandas root in the default
+    domain, a root whose group has a domain (geo) while its features are requested without one, derived groups whose input
+    features inherit the requested feature's domain / carry an explicit domain.  Every table has 4 rows with values on both
+    sides of the filter bound, so "filter applied or not" shows in the rows.  ONE GlobalFilter (1-2 filters; filter features
+    without / with own domain, compute framework, options) is re-used by 3-6 calls whose requested features belong to
+    different domains."""
+    def col(lo: int, hi: int) -> List[int]:
+        return sorted(rng.sample(range(lo, hi), 4))
+    S = {"name": "S", "kind": "root", "cfw": "PyArrowTable", "domain": "sales", "cols": {"v": col(0, 40), "p": col(0, 40), "k": [1, 2, 3, 4]}}
+    F = {"name": "F", "kind": "root", "cfw": "PyArrowTable", "domain": "finance", "cols": {"v": col(0, 40), "q": col(0, 40), "k": [1, 2, 3, 4]}}
+    W = {"name": "W", "kind": "root", "cfw": "PandasDataFrame", "cols": {"w": col(0, 40), "k": [1, 2, 3, 4]}}
+    G = {"name": "G", "kind": "root", "cfw": "PyArrowTable", "domain": "geo", "cols": {"x": col(0, 40), "y": col(0, 40)}}
+    DS = {"name": "DS", "kind": "derived", "cfw": "PyArrowTable", "domain": "sales",
+          "features": {"t1": {"inputs": ["v", "p"], "c0": 0, "coefs": [1, 1]}}}
+    DX = {"name": "DX", "kind": "derived", "cfw": "PyArrowTable",
+          "features": {"t2": {"inputs": ["x", "y"], "c0": 0, "coefs": [1, 2]},
+                       "t3": {"inputs": ["v"], "c0": 1, "coefs": [1], "input_dom": {"v": "finance"}}}}
+    spec = {"groups": [S, F, W, G, DS, DX], "request": []}
+    n_opt = rng.randrange(1, 4)
+    options = []
+    for i in range(n_opt):
+        grp: Dict[str, Any] = {}
+        if i and rng.random() < 0.6:
+            grp["x"] = rng.choice([1, 2])
+        if rng.random() < 0.08:
+            grp["y"] = "u"
+        options.append({"group": grp, "context": {"cx": 5} if rng.random() < 0.1 else {}})
+    feats = []
+    for _ in range(rng.randrange(5, 10)):
+        name, dom = rng.choice(DOM_FEATS_ODD) if rng.random() < 0.08 else rng.choice(DOM_FEATS)
+        cfw = rng.choice(["PyArrowTable", "PandasDataFrame"]) if rng.random() < 0.08 else None
+        feats.append({"name": name, "opt": rng.randrange(n_opt), "dtype": None, "link": None, "dom": dom, "cfw": cfw})
+    filters = []
+    cols_by = {g["name"]: g["cols"] for g in (S, F, W, G)}
+    for _ in range(rng.choice([1, 1, 1, 2])):
+        name = rng.choice(["v", "v", "v", "k", "k", "p", "x", "w", "q"])
+        vals = sorted(v for g in cols_by.values() if name in g for v in g[name])
+        r = rng.random()
+        fdom = None if r < 0.65 else rng.choice(["sales", "finance"]) if r < 0.9 else rng.choice(["geo", "default_domain"])
+        if fdom is None and rng.random() < 0.15 and name in DOM_OF_NAME:
+            fdom = DOM_OF_NAME[name]
+        fcfw = rng.choice(["PyArrowTable", "PandasDataFrame"]) if rng.random() < 0.12 else None
+        filters.append({"name": name, "type": rng.choice(["min", "max"]), "param": {"value": rng.choice(vals[2:-2] or vals)},
+                        "opts": ({"x": 1} if (rng.random() < 0.08 and not filters) else {}), "dom": fdom, "cfw": fcfw})
+    all_copy = rng.random() < 0.8
+    calls = []
+    for _ in range(rng.randrange(3, 7)):
+        idx = list(range(len(feats)))
+        rng.shuffle(idx)
+        chosen: List[int] = []
+        want = rng.choice([1, 1, 2, 2, 3])
+        for i in idx:
+            f = feats[i]
+            key = (f["name"], json.dumps(options[f["opt"]]["group"], sort_keys=True))
+            clash = False
+            for c in chosen:
+                g = feats[c]
+                if key == (g["name"], json.dumps(options[g["opt"]]["group"], sort_keys=True)) and \
+                        (f["dom"] is None or g["dom"] is None or f["dom"] == g["dom"]):
+                    clash = True       # Features([...]) compares them (Feature.__eq__ / Domain.__eq__ with None): outside the model
+            if clash:
+                continue
+            chosen.append(i)
+            if len(chosen) >= want:
+                break
+        calls.append({"feats": chosen, "copy": True if all_copy else rng.random() < 0.5, "strict": False, "api": 0, "links": False,
+                      "filter": rng.random() < 0.92, "kind": "run_all" if rng.random() < 0.7 else "prepare"})
+    return {"spec": spec, "options": options, "features": feats, "links_set": None, "filters": filters, "calls": calls, "family": "dom"}
+
+
+def dom_witness_cases() -> List[Dict[str, Any]]:
+    """Fixed sequences run first in family B-dom: the domain-less filter shared across sales -> finance -> default domain ->
+    geo; both domains in one call; filter features with own domain / framework."""
+    base = gen_dom_case(random.Random(12345))
+    spec = json.loads(json.dumps(base["spec"]))
+    spec["groups"][0]["cols"].update(v=[10, 20, 30, 40], p=[1, 12, 23, 34])
+    spec["groups"][1]["cols"].update(v=[11, 21, 31, 41], q=[2, 13, 24, 35])
+    spec["groups"][2]["cols"].update(w=[5, 15, 25, 35])
+    spec["groups"][3]["cols"].update(x=[3, 13, 23, 33], y=[4, 14, 24, 34])
+    opts = [{"group": {}, "context": {}}, {"group": {"x": 1}, "context": {}}]
+
+    def feat(name: str, dom: Optional[str], opt: int = 0, cfw: Optional[str] = None) -> Dict[str, Any]:
+        return {"name": name, "opt": opt, "dtype": None, "link": None, "dom": dom, "cfw": cfw}
+
+    def flt(name: str, value: int, dom: Optional[str] = None, cfw: Optional[str] = None, typ: str = "min") -> Dict[str, Any]:
+        return {"name": name, "type": typ, "param": {"value": value}, "opts": {}, "dom": dom, "cfw": cfw}
+
+    def call(feats: List[int], kind: str = "run_all", copy_: bool = True) -> Dict[str, Any]:
+        return {"feats": feats, "copy": copy_, "strict": False, "api": 0, "links": False, "filter": True, "kind": kind}
+    F6 = [feat("v", "sales"), feat("v", "finance"), feat("k", "default_domain"), feat("x", None), feat("t1", "sales"),
+          feat("w", None), feat("q", None, 1), feat("t3", None)]
+    return [
+        {"spec": spec, "options": opts, "features": F6, "links_set": None, "filters": [flt("v", 20)], "family": "dom",
+         "calls": [call([0]), call([1]), call([2]), call([3]), call([1, 0]), call([4], "prepare"), call([7])]},
+        {"spec": spec, "options": opts, "features": F6, "links_set": None, "filters": [flt("k", 2)], "family": "dom",
+         "calls": [call([5]), call([0]), call([1, 6]), call([2], "prepare"), call([0, 5])]},
+        {"spec": spec, "options": opts, "features": F6, "links_set": None, "filters": [flt("v", 30, dom="sales", typ="max")], "family": "dom",
+         "calls": [call([1]), call([0]), call([4]), call([1, 0])]},
+        {"spec": spec, "options": opts, "features": F6, "links_set": None, "filters": [flt("k", 3, cfw="PyArrowTable", typ="max")], "family": "dom",
+         "calls": [call([2]), call([0], copy_=False), call([1]), call([0], copy_=False)]},
+        {"spec": spec, "options": opts, "features": F6, "links_set": None, "filters": [flt("x", 13, dom="sales")], "family": "dom",
+         "calls": [call([3]), call([0]), call([3])]},
+    ]
+
+
 def witness_cases() -> List[Dict[str, Any]]:
     """The witnesses of the two repaired findings (C07-filter-collection-accumulates, C07-links-set-grows): regression
     cases, run first on every check."""
@@ -915,7 +1029,7 @@ def gen_args_case_modes(rng: random.Random) -> Dict[str, Any]:
     Link / GlobalFilter / api_data objects are handed to SYNC, THREADING and MULTIPROCESSING runs in turn (outside SYNC the
     api_data and the function extenders are pickled into a manager process; in MULTIPROCESSING every step -- features, options,
     filters -- is pickled into a worker process)."""
-    case = gen_args_case(rng)
+    case = gen_dom_case(rng) if rng.random() < 0.3 else gen_args_case(rng)     # 30 %: the universe with domains
     for c in case["calls"]:
         if rng.random() < 0.8:
             c["kind"] = "run_all"
@@ -1003,8 +1117,11 @@ def run_args_case(case: Dict[str, Any]) -> Dict[str, Any]:
         c["same_run"] = bool(same_run)
         c["all_copy_before"] = all_copy
         if world["links"] != entry["links"] or world["coll"] != entry["coll"] or world["filters"] != entry["filters"]:
+            fdiff = ""
+            if world["filters"] != entry["filters"]:
+                fdiff = f", filter objects {entry['filters']} -> {world['filters']}"
             rec["problems"].append(f"call {ci} {call}: the caller's links set / GlobalFilter was written: links {entry['links']} -> "
-                                   f"{world['links']}, collection keys {[k for k, _ in entry['coll']]} -> {[k for k, _ in world['coll']]}")
+                                   f"{world['links']}, collection keys {[k for k, _ in entry['coll']]} -> {[k for k, _ in world['coll']]}{fdiff}")
         if all_copy and not (same_plan and same_run):
             # is the request itself deterministic?  (fresh equal objects, same call, several times)
             outs = set()
@@ -1016,9 +1133,15 @@ def run_args_case(case: Dict[str, Any]) -> Dict[str, Any]:
                 c["nondet"] = True
                 rec["nondet"] = True
         if all_copy and not (same_plan and same_run) and not c.get("nondet"):
+            detail = ""
+            if not same_plan and got["plan"] is not None and fgot["plan"] is not None:
+                detail += (f"; filters attached per step: shared {[(g, fs) for g, _o, fs in got['plan']]} / "
+                           f"fresh {[(g, fs) for g, _o, fs in fgot['plan']]}")
+            if not same_run and got["run"] and fgot["run"] and got["run"][0] == "ok" and fgot["run"][0] == "ok":
+                detail += f"; rows returned: shared {got['run'][1]} / fresh {fgot['run'][1]}"
             rec["problems"].append(
                 f"call {ci} {call}: outcome with the shared objects ({got['err'] or 'planned'}, run {got['run'] and got['run'][0]}) differs "
-                f"from the outcome with fresh equal objects ({fgot['err'] or 'planned'}, run {fgot['run'] and fgot['run'][0]})")
+                f"from the outcome with fresh equal objects ({fgot['err'] or 'planned'}, run {fgot['run'] and fgot['run'][0]}){detail[:900]}")
         # -- earlier sessions: their frozen plan must not change when the shared filter object is used again
         for sj, (s_old, snap_old) in enumerate(sessions):
             now = dump(s_old.engine.execution_planner)
@@ -1069,7 +1192,7 @@ def cq_call(case: Dict[str, Any], call: Dict[str, Any]) -> str:
         api = f"(Some {cq_cols([(g['key'], list(g['cols']) + (['z'] if call['api'] == 2 else []))])})"
     return (f"{{| c_feats := {cq_list(cq_nat(i) for i in call['feats'])}; c_copy := {cq_bool(call['copy'])}; "
             f"c_strict := {cq_bool(call['strict'])}; c_api := {api}; c_links := {cq_bool(call['links'])}; "
-            f"c_filter := {cq_bool(call['filter'])} |}}")
+            f"c_filter := {cq_bool(call['filter'])}; c_hz := 100%nat |}}")
 
 
 def cq_cobs(case: Dict[str, Any], c: Dict[str, Any]) -> str:
@@ -1091,27 +1214,80 @@ def cq_args_case(rec: Dict[str, Any]) -> str:
     return f"({cq_universe(case)}, {cq_world(rec['w0'])}, {cq_list(cq_cobs(case, c) for c in rec['calls'])})"
 
 
-def part_b(rep: vlib.Reporter, tier: str, rng: random.Random, modes: bool = False) -> bool:
-    """modes = True: family B-modes -- the run_all calls of a sequence draw their execution mode (gen_args_case_modes)."""
+def call_domains(case: Dict[str, Any], call: Dict[str, Any]) -> List[str]:
+    """The domains a call's requested features belong to (own domain, else the domain of the group providing the name)."""
+    out = set()
+    for i in call["feats"]:
+        f = case["features"][i]
+        d = f.get("dom") or DOM_OF_NAME.get(f["name"])
+        if d:
+            out.add(d)
+    return sorted(out)
+
+
+def dom_stats(dist: Dict[str, Any], rec: Dict[str, Any]) -> None:
+    """Evidence counters of the sequences with domains."""
+    case = rec["case"]
+    d = dist.setdefault("domains", {"sequences": 0, "calls_with_domains": 0, "calls_over_two_or_more_domains": 0,
+                                    "sequences_reusing_one_filter_across_domains": 0, "sequences_with_filter_in_3_or_more_calls": 0,
+                                    "filter_feature": {"without_domain": 0, "with_own_domain": 0, "with_compute_framework": 0, "with_options": 0},
+                                    "features_with_compute_framework": 0, "features_with_domain": 0,
+                                    "filtered_calls": {"filter_attached_to_a_step": 0, "no_filter_attached": 0, "planning_failed": 0,
+                                                       "run_returned_fewer_rows_than_the_source": 0, "run_returned_all_rows": 0},
+                                    "domain_sets_of_filtered_calls": {}})
+    d["sequences"] += 1
+    for f in case["filters"]:
+        d["filter_feature"]["with_own_domain" if f.get("dom") else "without_domain"] += 1
+        d["filter_feature"]["with_compute_framework"] += int(bool(f.get("cfw")))
+        d["filter_feature"]["with_options"] += int(bool(f.get("opts")))
+    d["features_with_compute_framework"] += sum(1 for f in case["features"] if f.get("cfw"))
+    d["features_with_domain"] += sum(1 for f in case["features"] if f.get("dom"))
+    seen_doms = []
+    for c in rec["calls"]:
+        doms = call_domains(case, c["call"])
+        d["calls_with_domains"] += int(bool(doms))
+        d["calls_over_two_or_more_domains"] += int(len(doms) >= 2)
+        if not c["call"]["filter"]:
+            continue
+        seen_doms.append(tuple(doms))
+        k = "+".join(doms) or "none"
+        d["domain_sets_of_filtered_calls"][k] = d["domain_sets_of_filtered_calls"].get(k, 0) + 1
+        fc = d["filtered_calls"]
+        if c["plan"] is None:
+            fc["planning_failed"] += 1
+            continue
+        fc["filter_attached_to_a_step" if any(fs for _g, _o, fs in c["plan"]) else "no_filter_attached"] += 1
+        if c["run"] and c["run"][0] == "ok":
+            short = any(len(json.loads(t)) < 4 for t in c["run"][1])
+            fc["run_returned_fewer_rows_than_the_source" if short else "run_returned_all_rows"] += 1
+    d["sequences_reusing_one_filter_across_domains"] += int(len({x for x in seen_doms if x}) >= 2)
+    d["sequences_with_filter_in_3_or_more_calls"] += int(len(seen_doms) >= 3)
+
+
+def part_b(rep: vlib.Reporter, tier: str, rng: random.Random, modes: bool = False, dom: bool = False) -> bool:
+    """modes = True: family B-modes -- the run_all calls of a sequence draw their execution mode (gen_args_case_modes).
+    dom = True: family B-dom -- the universe with domains (gen_dom_case), one GlobalFilter re-used across domains."""
     big = tier == "thorough"
-    n = (300 if big else 20) if modes else (1000 if big else 70)
+    n = (300 if big else 20) if modes else (2500 if big else 150) if dom else (1000 if big else 70)
     t0 = time.time()
     recs = []
     dist: Dict[str, Any] = {"sequences": 0, "calls": 0, "copy_false_calls": 0, "outcomes": {}, "shared_differs_from_fresh": 0, "shared_differs_from_fresh_after_copy_only": 0,
                             "api_universes": 0, "with_filter": 0, "with_links": 0,
                             "objects_mutated_calls": 0}
     found = False
-    wit = [] if modes else witness_cases()
+    wit = [] if modes else dom_witness_cases() if dom else witness_cases()
     per_mode: Dict[str, Dict[str, Any]] = {m: {"run_all_calls": 0, "requested": 0, "made_in_sync_instead": {}, "run_outcomes": {},
                                                "with_filter": 0, "with_links": 0, "with_api_data": 0, "copy_false": 0,
                                                "shared_differs_from_fresh": 0, "objects_mutated_calls": 0} for m in MODES3}
     for k in range(n + len(wit)):
-        case = wit[k] if k < len(wit) else (gen_args_case_modes(rng) if modes else gen_args_case(rng))
+        case = wit[k] if k < len(wit) else (gen_args_case_modes(rng) if modes else gen_dom_case(rng) if dom else gen_args_case(rng))
         if len(case["calls"]) < 2:
             continue
         rec = run_args_case(case)
         recs.append(rec)
         dist["sequences"] += 1
+        if case.get("family") == "dom":
+            dom_stats(dist, rec)
         dist["api_universes"] += int(case["spec"]["groups"][0]["kind"] == "api")
         for c in rec["calls"]:
             dist["calls"] += 1
@@ -1153,6 +1329,9 @@ def part_b(rep: vlib.Reporter, tier: str, rng: random.Random, modes: bool = Fals
         if modes:
             if len({c["call"].get("mode", "SYNC") for c in rec["calls"] if c["call"]["kind"] == "run_all"}) >= 2:
                 rep.nontrivial(("B-modes", case))
+        elif dom:
+            if len({tuple(call_domains(case, c["call"])) for c in rec["calls"] if c["call"]["filter"]} - {()}) >= 2:
+                rep.nontrivial(("B-dom", case))
         elif (any(c["call"]["filter"] for c in rec["calls"][:-1]) and rec["calls"][-1]["call"]["filter"]) or \
                 any(f["link"] is not None for f in case["features"]) or any(not c["call"]["copy"] for c in rec["calls"]):
             rep.nontrivial(("B", case))
@@ -1165,7 +1344,7 @@ def part_b(rep: vlib.Reporter, tier: str, rng: random.Random, modes: bool = Fals
     dist["sequences_with_nondeterministic_request"] = sum(1 for r in recs if r.get("nondet"))
     recs = [r for r in recs if not r.get("nondet")]
     terms = [cq_args_case(r) for r in recs]
-    bad, info = vlib.run_cases("C07", "args_modes" if modes else "args", REQ_B, "chk_args", terms,
+    bad, info = vlib.run_cases("C07", "args_modes" if modes else "args_dom" if dom else "args", REQ_B, "chk_args", terms,
                                case_type="universe * world * list cobs", shard=60) if terms else ([], {})
     for i in bad[:6]:
         r = recs[i]
@@ -1193,12 +1372,16 @@ def part_b(rep: vlib.Reporter, tier: str, rng: random.Random, modes: bool = Fals
         dist["wall_s"] = round(time.time() - t0, 1)
         rep.add("argument_sequences_modes", dist)
         rep.add("args_model_modes", {**info, "disagreements": len(bad)})
+    elif dom:
+        dist["wall_s"] = round(time.time() - t0, 1)
+        rep.add("argument_sequences_domains", dist)
+        rep.add("args_model_domains", {**info, "disagreements": len(bad)})
     else:
         rep.add("argument_sequences", dist)
         rep.add("args_model", {**info, "disagreements": len(bad)})
     if recs:
         r0 = recs[len(wit)] if len(recs) > len(wit) else recs[0]
-        rep.sample({"part": "B-modes" if modes else "B", "features": r0["case"]["features"], "filters": r0["case"]["filters"], "links_set": r0["case"]["links_set"],
+        rep.sample({"part": "B-modes" if modes else "B-dom" if dom else "B", "features": r0["case"]["features"], "filters": r0["case"]["filters"], "links_set": r0["case"]["links_set"],
                     "calls": r0["case"]["calls"], "outcomes": [(c["err"], c["run"] and c["run"][0], c["same"], c["same_run"]) for c in r0["calls"]]})
     return found
 
@@ -1445,6 +1628,7 @@ def run(rep: vlib.Reporter, tier: str, seed: int) -> None:
     found = part_a(rep, tier, random.Random(seed * 7937 + 17), modes=True) or found
     found = part_b(rep, tier, random.Random(seed * 7927 + 11)) or found
     found = part_b(rep, tier, random.Random(seed * 7949 + 19), modes=True) or found
+    found = part_b(rep, tier, random.Random(seed * 7951 + 23), dom=True) or found
     found = part_c(rep, tier, random.Random(seed * 7933 + 13)) or found
     rep.add("rule", "A: PRNG histories on one session; non-trivial = >= 3 operation kinds incl. a failing and a successful one. "
                     "B: PRNG sequences of 2-5 prepare/run_all calls over a shared pool of Feature/Options/Link/GlobalFilter/api_data "
